@@ -121,6 +121,7 @@ op_nop::name () const
 stack::uptr
 op_assert::next (scon &sc) const
 {
+  DWGREP_VERIF_STEP ();
   while (auto stk = m_upstream->next (sc))
     if (m_pred->result (sc, *stk) == pred_result::yes)
       return stk;
@@ -232,6 +233,7 @@ stringer_op::next (scon &sc) const
 
   while (true)
     {
+      DWGREP_VERIF_STEP ();
       if (! st.m_str)
 	{
 	  auto up = m_upstream->next (sc);
@@ -295,6 +297,7 @@ op_format::next (scon &sc) const
   state &st = sc.get <state> (m_ll);
   while (true)
     {
+      DWGREP_VERIF_STEP ();
       auto stk = m_stringer->next (sc);
       if (stk.first != nullptr)
 	{
@@ -432,6 +435,7 @@ op_merge::next (scon &sc) const
 
   while (! st.m_done)
     {
+      DWGREP_VERIF_STEP ();
       if (auto ret = m_ops[st.m_idx]->next (sc))
 	return ret;
       if (++st.m_idx == m_ops.size ())
@@ -500,8 +504,10 @@ op_or::next (scon &sc) const
 
   while (true)
     {
+      DWGREP_VERIF_STEP ();
       while (st.m_branch_it == m_branches.end ())
 	{
+	  DWGREP_VERIF_STEP ();
 	  if (auto stk = m_upstream->next (sc))
 	    for (st.m_branch_it = m_branches.begin ();
 		 st.m_branch_it != m_branches.end (); ++st.m_branch_it)
@@ -666,6 +672,7 @@ op_tr_closure::next_from_upstream (state &st, scon &sc) const
 stack::uptr
 op_tr_closure::next_from_op (state &st, scon &sc) const
 {
+  DWGREP_VERIF_STEP ();
   if (st.m_op_drained)
     return nullptr;
   if (auto ret = m_op->next (sc))
@@ -763,6 +770,7 @@ op_subx::next (scon &sc) const
 
   while (true)
     {
+      DWGREP_VERIF_STEP ();
       if (st.m_stk == nullptr)
 	{
 	  st.m_stk = m_upstream->next (sc);
@@ -1005,6 +1013,7 @@ op_ifelse::next (scon &sc) const
 
   while (true)
     {
+      DWGREP_VERIF_STEP ();
       // Condition and then and else branches share state space. So in the
       // following, make sure that the condition state space is only used after
       // the then/else one is destroyed, and vice versa, that the then/else is
